@@ -726,3 +726,13 @@ M("C01", "emu-sv observables always rebuild the generator from row 0", "kill",
 M("C13", "twin: step result unpacked through a local pair", "twin",
   [(SVI, "        self.state.data, self._current_H = self.stepper.apply(", "        evolved = self.stepper.apply("),
    (SVI, "            self.pulser_lindblads,\n        )\n\n    def _is_evaluation_time(", "            self.pulser_lindblads,\n        )\n        self.state.data = evolved[0]\n        self._current_H = evolved[1]\n\n    def _is_evaluation_time(")])
+# ---- OBSDEF-axis
+M("C13", "second correlation axis off by one", "kill", [(SCBF, "            select_i = select_i.view(2**i, 2 ** (j - i - 1), 2, -1)", "            select_i = select_i.view(2**i, 2 ** (j - i), 2, -1)")], "OBSDEF-axis")
+M("C13", "density-matrix occupation reads level 0", "kill", [(SCBF, "        state_tensor = diag_state_tensor.view(2**i, 2, 2 ** (nqubits - i - 1))[:, 1, :]", "        state_tensor = diag_state_tensor.view(2**i, 2, 2 ** (nqubits - i - 1))[:, 0, :]")], "OBSDEF-axis")
+M("C13", "occupation with little-endian qubit axis", "kill", [(SCBF, "        state_tensor = state.data.view(2**i, 2, -1)\n", "        state_tensor = state.data.view(2 ** (nqubits - i - 1), 2, -1)\n")], "OBSDEF-axis")
+M("C13", "density-matrix correlation pair uses the squared norm", "kill", [(SCBF, "            correlation[i, j] = state_diag_ni_nj.sum().real", "            correlation[i, j] = torch.linalg.vector_norm(state_diag_ni_nj) ** 2")], "OBSDEF-axis")
+M("C13", "correlation pairs skip neighbours", "kill", [(SCBF, "        for j in range(i + 1, nqubits):  # select the upper triangle", "        for j in range(i + 2, nqubits):  # select the upper triangle")], "OBSDEF-axis")
+M("C13", "density-matrix correlation second axis counted from i", "kill", [(SCBF, "            shapeij = (2**i, 2 ** (j - i - 1), 2, 2 ** (nqubits - 1 - j))", "            shapeij = (2 ** (i + 1), 2 ** (j - i - 1), 2, 2 ** (nqubits - 2 - j))")], "OBSDEF-axis")
+M("C13", "mirror entry copied from the diagonal", "kill", [(SCBF, "            correlation[i, j] = state_diag_ni_nj.sum().real\n            correlation[j, i] = correlation[i, j]", "            correlation[i, j] = state_diag_ni_nj.sum().real\n            correlation[j, i] = correlation[i, i]")], "OBSDEF-axis")
+M("C13", "twin: leading axes of the pair view merged differently", "twin", [(SCBF, "            select_i = select_i.view(2**i, 2 ** (j - i - 1), 2, -1)\n            select_ij = select_i[:, :, 1, :]", "            select_i = select_i.view(2 ** (j - 1), 2, -1)\n            select_ij = select_i[:, 1, :]")])
+M("C13", "twin: occupation view with the explicit trailing size", "twin", [(SCBF, "        state_tensor = state.data.view(2**i, 2, -1)\n", "        state_tensor = state.data.view(2**i, 2, 2 ** (nqubits - i - 1))\n")])
